@@ -17,6 +17,7 @@ import (
 	"verifharness/world"
 
 	"github.com/gr33nbl00d/caddy-revocation-validator/core"
+	"github.com/gr33nbl00d/caddy-revocation-validator/core/verifhook"
 	"github.com/gr33nbl00d/caddy-revocation-validator/crl"
 	"github.com/gr33nbl00d/caddy-revocation-validator/crl/crlrepository"
 	"github.com/gr33nbl00d/caddy-revocation-validator/crl/crlstore"
@@ -29,14 +30,16 @@ import (
 type Case struct {
 	Backend string `json:"backend"` // disk | memory
 	Level   string `json:"level"`   // repo | checker
-	Fault   string `json:"fault"`   // closed | corrupt-value | corrupt-table | swap-failure | race-close
-	N       int    `json:"n"`       // listed entries
-	Damage  string `json:"damage,omitempty"`
-	KeyIdx  int    `json:"key_idx,omitempty"`
-	Bytes   []byte `json:"bytes,omitempty"`
-	Offset  int    `json:"offset,omitempty"`
-	Strict  bool   `json:"strict,omitempty"`
-	Extra   int    `json:"extra,omitempty"` // additional healthy CRLs (other issuers) in the same repository
+	Fault   string `json:"fault"`   // closed | corrupt-value | corrupt-table | swap-failure | race-close | swap-sabotage
+	// Site (swap-sabotage): the step of the real LevelDB swap at which every crl_*_tmp directory below work_dir vanishes
+	Site    string   `json:"site,omitempty"`
+	N       int      `json:"n"` // listed entries
+	Damage  string   `json:"damage,omitempty"`
+	KeyIdx  int      `json:"key_idx,omitempty"`
+	Bytes   []byte   `json:"bytes,omitempty"`
+	Offset  int      `json:"offset,omitempty"`
+	Strict  bool     `json:"strict,omitempty"`
+	Extra   int      `json:"extra,omitempty"` // additional healthy CRLs (other issuers) in the same repository
 	Serials []string `json:"serials"`
 }
 
@@ -53,6 +56,11 @@ func genCase(t *rapid.T) Case {
 		faults = append(faults, "corrupt-table", "corrupt-table")
 	}
 	c.Fault = rapid.SampledFrom(faults).Draw(t, "fault")
+	if sab := rapid.IntRange(0, 99).Draw(t, "sabotage"); c.Backend == "disk" && (sab == 73 || sab == 37) { // (not an edge value: rapid favours those)
+		// rare (each case waits for the store's rename retries): the REAL swap of the disk back-end fails half-way
+		c.Fault = "swap-sabotage"
+		c.Site = rapid.SampledFrom([]string{"leveldb.update.start", "leveldb.update.old-closed", "leveldb.update.new-closed", "leveldb.update.old-moved", "leveldb.update.old-moved"}).Draw(t, "site")
+	}
 	c.N = rapid.IntRange(1, 12).Draw(t, "n")
 	c.Extra = rapid.SampledFrom([]int{0, 0, 1, 2, 3}).Draw(t, "extra")
 	if c.Fault == "corrupt-table" {
@@ -347,6 +355,31 @@ func runCase(c Case, x *ev.Ctx) error {
 			}
 			return err
 		}
+	case "swap-sabotage":
+		// the refresh is downloaded, parsed and accepted; in the middle of the store swap the temporary directories
+		// (the staged store, and from old-moved on also the moved-away previous store) vanish. Whatever is left, a
+		// certificate the list in force revoked must not be answered 'not revoked'.
+		var once sync.Once
+		removed := 0
+		verifhook.Set(func(name string) {
+			if name == c.Site {
+				once.Do(func() {
+					m, _ := filepath.Glob(filepath.Join(wd, "crl_*_tmp"))
+					for _, p := range m {
+						if os.RemoveAll(p) == nil {
+							removed++
+						}
+					}
+				})
+			}
+		})
+		os.WriteFile(crlFile, pki.CRL(2, c.Serials...), 0o600)
+		_, _ = world.Call("UpdateCRL", 2*time.Minute, func() error { return repo.UpdateCRL(loc, chains) })
+		verifhook.Set(nil)
+		x.Classf("swap-sabotage/%s/removed-%d", c.Site, removed)
+		if err := judge("after the store swap was sabotaged at " + c.Site); err != nil {
+			return err
+		}
 	case "race-close":
 		var wg sync.WaitGroup
 		stop := make(chan struct{})
@@ -465,10 +498,10 @@ func damageValue(live crlstore.CRLStore, c Case) (int, error) {
 }
 
 var spec = ev.Spec[Case]{
-	ID:  "C09",
-	Gen: genCase,
-	Run: runCase,
-	Rule: "rapid draws (backend, level in {repository, checker}, strictness, fault, list of 1..12 serials of 1..20 bytes; 50..400 for table corruption). A healthy CRL is loaded through the real path (file loader -> streaming reader -> staged store -> swap); baseline lookups must be truthful. Then one fault is injected: store/repository/checker closed; one record value (k-th key of the live store, through the exported Db/Map) emptied / truncated / replaced by random bytes / bit-flipped; bytes of a compacted LevelDB table file flipped followed by a restart; the final store swap of a refresh failing (wrapping factory); 4 reader goroutines racing Close. Oracle: a lookup of a LISTED serial answers revoked or error, never (not revoked, nil); an unlisted serial is never reported revoked; on disk after Close every lookup is an error. Non-trivial: every case that reached the fault (baseline truthful); distinct by (fault, backend, level, damage kind, strict, size bucket).",
+	ID:   "C09",
+	Gen:  genCase,
+	Run:  runCase,
+	Rule: "rapid draws (backend, level in {repository, checker}, strictness, fault, list of 1..12 serials of 1..20 bytes; 50..400 for table corruption). A healthy CRL is loaded through the real path (faults also include, rarely and on disk only, a sabotaged REAL store swap: at a drawn step of LevelDbStore.Update every crl_*_tmp directory below work_dir vanishes) (file loader -> streaming reader -> staged store -> swap); baseline lookups must be truthful. Then one fault is injected: store/repository/checker closed; one record value (k-th key of the live store, through the exported Db/Map) emptied / truncated / replaced by random bytes / bit-flipped; bytes of a compacted LevelDB table file flipped followed by a restart; the final store swap of a refresh failing (wrapping factory); 4 reader goroutines racing Close. Oracle: a lookup of a LISTED serial answers revoked or error, never (not revoked, nil); an unlisted serial is never reported revoked; on disk after Close every lookup is an error. Non-trivial: every case that reached the fault (baseline truthful); distinct by (fault, backend, level, damage kind, strict, size bucket).",
 	Assumptions: []string{
 		"damage that makes leveldb silently drop a journal record cannot be observed by the plugin and is out of scope; table corruption is judged by the same never-(ok,nil)-for-listed rule",
 	},
